@@ -781,9 +781,18 @@ class DataAccessObject(HasGeneric[T]):
         :param state: The conversion state.
         :return: A dictionary of keyword arguments derived from the base DAO and mapping.
         """
-        base = self.__class__.__bases__[0]
+        # the nearest ancestor that is alternatively mapped, it need not be the direct parent
+        base = next(
+            (
+                ancestor
+                for ancestor in self.__class__.__mro__[1:]
+                if hasattr(ancestor, "__table__")
+                and self.uses_alternative_mapping(ancestor)
+            ),
+            None,
+        )
         base_kwargs: Dict[str, Any] = {}
-        if self.uses_alternative_mapping(base):
+        if base is not None:
             parent_dao = base()
             parent_mapper = sqlalchemy.inspection.inspect(base)
             for column in parent_mapper.columns:
